@@ -39,7 +39,11 @@ func main() {
 	verbose := flag.Bool("v", false, "print every obligation")
 	noSeeds := flag.Bool("noseeds", false, "skip self-test seeds")
 	flag.IntVar(&sweepLimit, "sweep", -1, "mutation sweep: number of sampled mutants (default: 0 in quick, 400 in thorough)")
+	sweepAll := flag.String("sweepall", "", "development aid: comma-separated file globs; mutate every function in them and run all rules")
 	flag.Parse()
+	if *sweepAll != "" {
+		os.Exit(runSweepAll(*root, *verif, *sweepAll, sweepLimit, true))
+	}
 
 	if *listRules {
 		for _, r := range rules.All() {
@@ -176,7 +180,7 @@ func run(propID, tier, root, verif, patchFile, onlyRule string, verbose, noSeeds
 		if n < 0 {
 			n = 400
 		}
-		sweep = runSweep(prog, propID, selected, all, findings, n, seedEnv)
+		sweep = runSweep(prog, propID, selected, all, findings, n, seedEnv, nil)
 	}
 
 	// report
